@@ -82,7 +82,7 @@ type Res struct {
 // Fails reports whether the resolver itself fails (error / panic, directly or deferred).
 func (r Res) Fails() bool {
 	switch r.Kind {
-	case "err", "err_foreign", "err_ctx", "valerr", "panic_err", "panic_str", "panic_int", "thunk_err":
+	case "err", "err_foreign", "err_located", "err_shared", "err_ctx", "valerr", "panic_err", "panic_shared", "panic_str", "panic_int", "thunk_err":
 		return true
 	}
 	return false
@@ -99,7 +99,7 @@ func (w *World) Resolve(parentType string, fd *model.FieldDef, path []interface{
 			return Res{Kind: o.Kind}
 		case "typednil":
 			return Res{Kind: "val", Val: (*Tok)(nil)}
-		case "err", "err_foreign", "err_ctx", "panic_err", "panic_str", "panic_int", "thunk_err":
+		case "err", "err_foreign", "err_located", "err_shared", "err_ctx", "panic_err", "panic_shared", "panic_str", "panic_int", "thunk_err":
 			return Res{Kind: o.Kind, ErrMsg: "E:" + key}
 		case "valerr":
 			return Res{Kind: o.Kind, Val: w.defVal(fd.Type, key, args, true), ErrMsg: "E:" + key}
